@@ -23,6 +23,8 @@ type Scenario struct {
 	New     func() any
 	Threads [][]Op
 	Observe func(sys any) string
+	// RaceOnly: no shimmed synchronisation inside (one schedule): only run in the free-running race pass
+	RaceOnly bool
 	// Accept lists outcomes that the sequential reference does not produce but the property allows (rare).
 }
 
